@@ -1549,7 +1549,8 @@ fn present(case: &Case) -> Present {
                 }
             }
             Con::Lin { coeffs, reif: None, .. } => p.zero_lin |= coeffs.iter().all(|c| *c == 0),
-            Con::Implies(_, _, 1) => p.fn_implies = true,
+            // (functions::implies was a no-op on the pinned tree; repaired by a `fix:` commit, so it is no longer a predicted quirk)
+            Con::Implies(_, _, 1) => p.fn_implies = false,
             _ => {}
         }
     }
